@@ -14,7 +14,8 @@ MANIFEST = dict(
          "or after touching the sketches), C19_nrecords (n_records, added once at the pill, sums the callback returns of the "
          "successful items only), C19_others_intact / C19_hll_intact (for every schedule the merged count-min estimate of every key "
          "is >= min(its count over the successful items, cap) and <= the row mass of what took effect; the HyperLogLog registers "
-         "are those of one sketch fed everything that took effect), C19_monitor (Abort iff some exit code is neither None nor 0), "
+         "are those of one sketch fed everything that took effect; C19_hh_others_intact: heavy hitters keep C03's no-over-count and "
+         "C04's per-row guarantee w.r.t. what took effect), C19_monitor (Abort iff some exit code is neither None nor 0), "
          "C19_abort_closes (after a bad exit code both queues are closed and the next log put raises before any merge is "
          "started), C19_no_fault_returns. Tied to the code by driving the REAL _worker/_merge_worker/parallel_merging/parallel_add "
          "under a synchronous process context over every fault pattern of 4 items and comparing states with the model inside Coq; "
@@ -111,7 +112,7 @@ def run(ctx):
     ctx.cov["traces_validated_against_impl"] = S.n_sched + n_whole
 
     # ---- collect the real runs
-    real_cases = {"cms": [], "hll": []}
+    real_cases = {"cms": [], "hll": [], "hh": []}
     kill_summary = []
     for tag, h, r in RR.results():
         ctx.tick(f"real run {tag} finished after {r.get('wall')}s")
@@ -122,6 +123,7 @@ def run(ctx):
                 sched, fin = out
                 real_cases["cms"].append((real_items, sched, fin["cms"]))
                 real_cases["hll"].append((real_items, sched, fin["hll"]))
+                real_cases["hh"].append((real_items, sched, fin["hh"]))
         else:
             rep = {"suite": "real-dead-worker", "n_workers": spec["n_workers"], "die_on_kth": spec["die_on_kth"],
                    "items": spec["items"], "combo": spec["combo"], "cfg": cfg,
@@ -169,8 +171,9 @@ def run(ctx):
         "ERROR log per faulted item, exit codes 0, the queue consumed up to and including the pill and no further; n_records "
         "(per worker and merged) == sum of the returns of the successful items; n_added == multiplicity of what took effect; every "
         "key's count-min estimate >= min(count over the successful items, cap) and <= row mass of what took effect; HLL registers == "
-        "sequential sketch of what took effect; heavy hitters never over-count. Model: the same cases evaluated by Merging.v inside "
-        "Coq (complete count-min state of every worker and of the result, HLL registers, monitor outcome for the observed exit "
+        "sequential sketch of what took effect; heavy hitters never over-count. Model: the same cases evaluated by Merging.v / "
+        "MergingHH.v inside Coq (complete count-min state and heavy-hitter table of every worker and of the result, hh[k], query, "
+        "HLL registers, monitor outcome for the observed exit "
         "codes). Real spawned runs: one with a raising callback (must return; schedule observed through the callback, model "
         f"evaluated on it) and dead-worker runs (os._exit(3) on the k-th item of the first worker to get there; must raise within "
         f"{BOUND_S} s): {'k=1, 2 workers' if quick else 'k in 1..3, n_workers in {1,2,3,5}'}. distinct = distinct (suite, combination, "
